@@ -3,6 +3,7 @@ package mp4
 import (
 	"fmt"
 	"io"
+	"math"
 	"os"
 	"strings"
 
@@ -819,7 +820,7 @@ func findSegmentData(segs []*MediaSegment, refTrak *TrakBox, trex *TrexBox) ([]s
 	segDatas := make([]segData, 0, len(segs))
 	for _, seg := range segs {
 		var firstCompositionTimeOffest int64
-		dur := uint32(0)
+		dur := uint64(0)
 		var baseTime uint64
 		for fIdx, frag := range seg.Fragments {
 			if frag.Moof == nil {
@@ -841,17 +842,20 @@ func findSegmentData(segs []*MediaSegment, refTrak *TrakBox, trex *TrexBox) ([]s
 							if fIdx == 0 && i == 0 && j == 0 {
 								firstCompositionTimeOffest = int64(sample.CompositionTimeOffset)
 							}
-							dur += sample.Dur
+							dur += uint64(sample.Dur)
 						}
 					}
 				}
 			}
 		}
+		if dur > math.MaxUint32 {
+			return nil, fmt.Errorf("segment duration %d does not fit in the 32 bits of a sidx reference", dur)
+		}
 		sd := segData{
 			startPos:         seg.StartPos,
 			presentationTime: uint64(int64(baseTime) + firstCompositionTimeOffest),
 			baseDecodeTime:   baseTime,
-			dur:              dur,
+			dur:              uint32(dur),
 			size:             uint32(seg.Size()),
 		}
 		segDatas = append(segDatas, sd)
